@@ -12,6 +12,9 @@ import PnVerif.Model.Merge
         one write request of a variable: scalars, fixed-size variables (one call of flatten_subarray
         on the whole shape) and record variables (start/count/stride/shape advanced past
         dimension 0, one call per record, `var_begin += stride0 * recsize` between them)
+    flatten_reqs()              -> `PReq`, `flattenOne`, `flattenReqs`
+        the pending put requests of one rank (nonblocking path), one flatten_subarray call per
+        non-lead request, appended in queue order
     intra_node_aggregation(), the part executed by the aggregator after all offset-length pairs and
     all write data have arrived (recv_buf = the ranks' packed buffers one after the other):
         bufAddr[i] = bufAddr[i-1] + lengths[i-1]            -> `mkSegsFrom`, `mkSegs`
@@ -90,6 +93,33 @@ def flattenReq (v : VarLay) (start count stride : List Nat) : List (Nat × Nat) 
     recBlocks v.xsz v.recsize (stride.headD 1) (v.shape.drop 1) (start.drop 1) (count.drop 1) (stride.drop 1)
       (count.headD 0) (v.begin + start.headD 0 * v.recsize)
   else flattenSubarray v.xsz v.begin v.shape start count stride
+
+/-! ### flatten_reqs (nonblocking path: the pending put requests of one rank at wait_all time) -/
+
+/-- one entry of the non-lead queue `reqs[i]` with what flatten_reqs reads from its lead request:
+    the variable (`lead->varp`) and start/count/stride (`reqs[i].start`, `+ndims`, `+2*ndims`).
+    For a record variable every non-lead request lies within ONE record (`start[0]`; the queue has
+    already split multi-record requests).  `NC_REQ_STRIDE_NULL` is passed as all ones (`ones[]`). -/
+structure PReq where
+  v : VarLay
+  start : List Nat
+  count : List Nat
+  stride : List Nat
+deriving Repr
+
+/-- the body of the second loop of flatten_reqs for request i:
+      shape = varp->shape; var_begin = varp->begin;
+      if (IS_RECVAR(varp)) { ndims--; start++; count++; stride++; shape++;
+                             var_begin += reqs[i].start[0] * ncp->recsize; }
+      flatten_subarray(ndims, xsz, var_begin, shape, start, count, stride, ...) -/
+def flattenOne (q : PReq) : List (Nat × Nat) :=
+  if q.v.isRec then
+    flattenSubarray q.v.xsz (q.v.begin + q.start.headD 0 * q.v.recsize) (q.v.shape.drop 1)
+      (q.start.drop 1) (q.count.drop 1) (q.stride.drop 1)
+  else flattenSubarray q.v.xsz q.v.begin q.v.shape q.start q.count q.stride
+
+/-- flatten_reqs: the pairs of all requests, appended in queue order (`idx += num`) -/
+def flattenReqs (qs : List PReq) : List (Nat × Nat) := qs.flatMap flattenOne
 
 /-- the element offsets a list of (offset, length) pairs stands for -/
 def expandPairs (el : Nat) (pairs : List (Nat × Nat)) : List Nat :=
